@@ -78,6 +78,10 @@ var gens = []generator{
 	{file: "CliRotate.lean", src: "cmd/gts/rotate.go (the per-record step)", run: genCliRotate},
 	{file: "CliExtract.lean", src: "cmd/gts/extract.go (containsRegion, the per-record step)", run: genCliExtract},
 	{file: "Locator.lean", src: "locator.go (the locator constructors, tryLocation, AsLocator)", run: genLocator},
+	{file: "GbReaderPrelude.lean", src: "(fixed prelude: bytes.Index, strings.IndexByte, TrimSuffix, strings.Repeat as the reader's plain computations read them)", run: genGbReaderPrelude},
+	{file: "GbReaderFns.lean", src: "seqio/genbank.go, genbank_subparsers.go, insdc.go, reference.go, strings.go, dictionary.go (the reader's plain computations)", run: genGbReaderFns},
+	{file: "GbReaderDispatch.lean", src: "seqio/genbank.go (tryAllParsers)", run: genGbReaderDispatch},
+	{file: "GbReaderFacts.lean", src: "seqio/genbank.go, genbank_subparsers.go, insdc.go, reference.go, utils.go (the reader's structure)", run: genGbReaderFacts},
 }
 
 func writeIfChanged(path string, content []byte) (bool, error) {
